@@ -128,8 +128,8 @@ type vc18pEnv struct {
 
 // server returns the running server for (transport, limit), starting it on
 // first use.
-func (e *vc18pEnv) server(useTLS bool, limit int) (s *vc18pSrv, err error) {
-	key := fmt.Sprintf("%t/%d", useTLS, limit)
+func (e *vc18pEnv) server(useTLS bool, limit int, deadline time.Duration) (s *vc18pSrv, err error) {
+	key := fmt.Sprintf("%t/%d/%s", useTLS, limit, deadline)
 	if s = e.srvs[key]; s != nil {
 		return s, nil
 	}
@@ -146,6 +146,11 @@ func (e *vc18pEnv) server(useTLS bool, limit int) (s *vc18pSrv, err error) {
 		TCPIdleTimeout:     10 * time.Minute,
 		MaxPipelineCount:   uint(limit),
 		MaxPipelineEnabled: true,
+	}
+	if deadline > 0 {
+		// As the production servers are configured: every request context
+		// carries a deadline.
+		conf.RequestContext = dnsserver.NewTimeoutContextConstructor(deadline)
 	}
 
 	var srv dnsserver.Server
@@ -238,7 +243,7 @@ func vc18pCase(t *rapid.T, st *vstat.Stats, env *vc18pEnv, grace time.Duration) 
 	writeMode := rapid.SampledFrom([]string{"one-write", "per-message", "chunks"}).Draw(t, "writeMode")
 	earlyClose := rapid.IntRange(0, 7).Draw(t, "earlyClose") == 0
 
-	srv, err := env.server(useTLS, limit)
+	srv, err := env.server(useTLS, limit, 0)
 	if err != nil {
 		vc18pInconclusive(t, "starting server: %v", err)
 	}
